@@ -268,11 +268,11 @@ PackedOK(r) == r.q4 = r.p /\ r.q3 = <<(r.p[1] % 256) + 65280, r.p[2]>>
 
 Judge(r) ==
     CASE r.e = "stratum" -> StratumOK(r) [] r.e = "delta" -> DeltaOK(r) [] r.e = "frun" -> FrunOK(r)
-      [] r.e = "sd" -> SdOK(r) [] r.e = "idiv" -> IdivOK(r) [] r.e = "fn" -> HelperOK(r) [] r.e = "ifn" -> IntHelperOK(r) [] r.e = "same" -> SameOK(r) [] r.e = "rettype" -> RetTypeOK(r)
+      [] r.e = "sd" -> SdOK(r) [] r.e = "idiv" -> IdivOK(r) [] r.e = "fn" -> HelperOK(r) [] r.e = "ifn" -> IntHelperOK(r) [] r.e = "same" -> SameOK(r) [] r.e = "rettype" -> RetTypeOK(r) [] r.e = "divzero" -> r.exc = 1
       [] r.e = "roots" -> RootsOK(r) [] r.e = "delegate" -> DelegateOK(r)
       [] r.e = "hsv" -> HsvOK(r) [] r.e = "hsvi" -> HsviOK(r) [] r.e = "packed" -> PackedOK(r)
       [] OTHER -> FALSE
-What(r) == CASE r.e \in {"stratum", "delta", "frun", "fn", "delegate"} -> <<r.e, r.fn>> [] r.e = "ifn" -> <<r.e, r.fn, r.t>> [] r.e \in {"same", "rettype"} -> <<r.e, r.what>>
+What(r) == CASE r.e \in {"stratum", "delta", "frun", "fn", "delegate"} -> <<r.e, r.fn>> [] r.e = "ifn" -> <<r.e, r.fn, r.t>> [] r.e \in {"same", "rettype", "divzero"} -> <<r.e, r.what>>
              [] r.e = "roots" -> <<r.e, r.fn, r.kind, r.t>>
              [] r.e = "hsv" -> <<r.e, r.dir, r.t>>
              [] OTHER -> <<r.e>>
